@@ -1,10 +1,104 @@
-//! C06 — not built yet.
-use crate::{sx::Sx, Emitter};
+//! C06 — determinism of state resolution at run time: every scenario is resolved many times,
+//! on several threads, with the state sets / auth chains passed in permuted orders and freshly
+//! built HashMaps/HashSets (fresh `RandomState` seeds on every call).  All results must be equal;
+//! the common result is the outcome compared with the model's single answer.
+//!
+//! case    = as C07 ( N0 Nversion EVENTS SETS CHAINS )
+//! outcome = ( N0 RESULT ORACLE ) | ( N1 N0 ORACLE )       all runs agree
+//!         | ( N3 A B ORACLE )                              two runs disagree (A, B their results)
+use std::sync::Arc;
 
-pub fn run(_tier: &str, _seed: u64, _em: &mut Emitter) {}
+use crate::{
+    c07::{call_resolve, case_sx, decode_case, histories, oracle, outcome_sx, pick_subsets, scenario_chain_through_unconflicted,
+          scenario_mainline, smap_sx, ResolveCase, SMap, Sim},
+    rng::Rng,
+    sx::Sx,
+    Emitter,
+};
 
-pub fn replay(_case: &Sx) -> Option<Sx> {
-    None
+const THREADS: usize = 4;
+const RUNS_PER_THREAD: usize = 4;
+
+fn res_sx(r: &Result<SMap, ()>) -> Sx {
+    match r {
+        Ok(m) => Sx::ok(smap_sx(m)),
+        Err(()) => Sx::err(0),
+    }
+}
+
+pub fn run_many(c: &ResolveCase, seed: u64) -> Option<Sx> {
+    let store = c.store();
+    let c2 = c.clone();
+    let st2 = store.clone();
+    let orc = match std::panic::catch_unwind(move || oracle(&c2, &st2)) {
+        Ok(Some(o)) => o,
+        Ok(None) => return None,
+        Err(_) => return Some(Sx::panic()),
+    };
+    let c = Arc::new(c.clone());
+    let store = Arc::new(store);
+    let mut handles = vec![];
+    for t in 0..THREADS {
+        let c = c.clone();
+        let store = store.clone();
+        handles.push(std::thread::spawn(move || {
+            let mut r = Rng::new(seed ^ (0xC06 + t as u64 * 7919));
+            let mut out = vec![];
+            for _ in 0..RUNS_PER_THREAD {
+                let mut order: Vec<usize> = (0..c.sets.len()).collect();
+                for i in (1..order.len()).rev() {
+                    let j = r.below(i + 1);
+                    order.swap(i, j);
+                }
+                out.push(call_resolve(&c, &store, &order));
+            }
+            out
+        }));
+    }
+    let mut all: Vec<Result<SMap, ()>> = vec![];
+    for h in handles {
+        match h.join() {
+            Ok(v) => all.extend(v),
+            Err(_) => return Some(Sx::panic()),
+        }
+    }
+    let first = all[0].clone();
+    for r in &all[1..] {
+        if *r != first {
+            return Some(Sx::L(vec![Sx::N(3), res_sx(&first), res_sx(r), orc]));
+        }
+    }
+    Some(outcome_sx(&first, orc))
+}
+
+fn emit(em: &mut Emitter, tag: &str, c: &ResolveCase, seed: u64) {
+    if let Some(out) = run_many(c, seed) {
+        em.emit(tag, case_sx(c), out);
+    }
+}
+
+pub fn run(tier: &str, seed: u64, em: &mut Emitter) {
+    let mut r = Rng::new(seed ^ 0xC06);
+    for tx in [5u64, 10, 20] {
+        for ty in [5u64, 10, 20] {
+            emit(em, "systematic", &scenario_mainline(tx, ty), r.next());
+            emit(em, "systematic", &scenario_chain_through_unconflicted(tx, ty), r.next());
+        }
+    }
+    for h in 0..histories(tier) {
+        let steps = 6 + r.below(22);
+        // histories differ from C07's (different seed mix)
+        let mut s = Sim::history(seed.wrapping_mul(7_000_003).wrapping_add(h as u64) ^ 0xC06, steps);
+        for nodes in pick_subsets(&mut s, 4) {
+            let c = s.case_for(&nodes);
+            emit(em, "history", &c, r.next());
+        }
+    }
+}
+
+pub fn replay(case: &Sx) -> Option<Sx> {
+    let c = decode_case(case)?;
+    run_many(&c, 1)
 }
 
 pub fn dump(_dir: &str) {}
